@@ -1056,8 +1056,9 @@ CHECKS = {
         assumptions=BUS_ASSUME),
     "C12": dict(
         props=["C12"],
-        parts=[engine_part("names", 32, 600, 45, claim_c12, ["snapshot_created", "publish_ok"])],
-        rule="engine profile names: create/delete/re-create/get/list of topics, subscriptions, snapshots in projects p, P, p%, p_, pp, p/x with page sizes 0,1,2,3,100,-1,1000 and followed page tokens",
+        parts=[engine_part("names", 32, 600, 45, claim_c12, ["snapshot_created", "publish_ok"]),
+               engine_part("many", 1, 1, 360, claim_c12, ["snapshot_created"])],
+        rule="[+ profile many: 103 topics, 102 subscriptions of one topic, 103 snapshots (more than the 100-row page cap), every List walked with page sizes 101, 1000, 100, 60 following the tokens] engine profile names: create/delete/re-create/get/list of topics, subscriptions, snapshots in projects p, P, p%, p_, pp, p/x with page sizes 0,1,2,3,100,-1,1000 and followed page tokens",
         assumptions=BUS_ASSUME + ["concurrent creates of one name are serialised by the database (C12 race half is the unique index + serialisable transactions: assumed)"]),
     "C13": dict(
         props=["C13"],
